@@ -1032,7 +1032,6 @@ impl Sim {
 
     fn check_insert_render(&mut self, h: HandleId) -> Result<(), Stop> {
         let im = ins_model(&self.model[&h].log);
-        self.stats.check("c10.render");
         if im.ragged() {
             // the model itself predicts a non-rectangular statement: only reachable through
             // columns() re-declared after a source was accepted
@@ -1042,6 +1041,9 @@ impl Sim {
                     .known_findings
                     .entry(KF_COLUMNS_REDECLARED.to_string())
                     .or_insert(0) += 1;
+                // whatever a tree does with the stale rows (keep them as today, or drop them)
+                // is not judged further: the structure check below applies to rectangular models
+                return Ok(());
             } else {
                 return Err(self.viol(
                     "c10.rect",
@@ -1051,6 +1053,14 @@ impl Sim {
                     ),
                 ));
             }
+        }
+        // Only the rows are judged: with a VALUES source the rendered statement must contain the
+        // column list followed by exactly the accepted rows in call order (not followed by one
+        // more row); for a SELECT source, the column list followed by that select. What comes
+        // before and after (INSERT/REPLACE, table, ON CONFLICT, RETURNING, hints) and how an
+        // INSERT without source or the DEFAULT VALUES path is spelled belongs to other properties.
+        if matches!(im.source, InsSrc::None) {
+            return Ok(());
         }
         for b in BACKENDS {
             let text = {
@@ -1067,20 +1077,30 @@ impl Sim {
                 )
                 .out
             };
-            let Ok(text) = text else { continue };
-            let Some(seg) = expected_insert_segment(&im, b) else { continue };
+            let Ok(text) = text else {
+                self.stats.check("c10.render.skipped_unrenderable");
+                continue;
+            };
+            let Some(segs) = expected_insert_segments(&im, b) else {
+                self.stats.check("c10.render.skipped_unrenderable");
+                continue;
+            };
+            self.stats.check("c10.render");
             let mut ok = false;
-            let mut from = 0;
-            while let Some(i) = text[from..].find(&seg) {
-                let end = from + i + seg.len();
-                let rest = &text[end..];
-                if rest.is_empty() || rest.starts_with(" ON ") || rest.starts_with(" RETURNING ") {
-                    ok = true;
-                    break;
-                }
-                from = from + i + 1;
-                while !text.is_char_boundary(from) {
-                    from += 1;
+            'seg: for seg in &segs {
+                let mut from = 0;
+                while let Some(i) = text[from..].find(seg.as_str()) {
+                    let end = from + i + seg.len();
+                    let rest = &text[end..];
+                    // not followed by one more row / cell of the same list
+                    if !rest.starts_with(", ") && !rest.starts_with(",(") {
+                        ok = true;
+                        break 'seg;
+                    }
+                    from = from + i + 1;
+                    while !text.is_char_boundary(from) {
+                        from += 1;
+                    }
                 }
             }
             if !ok {
@@ -1088,7 +1108,7 @@ impl Sim {
                     "c10.render",
                     format!(
                         "{:?}: rendered INSERT {:?} does not contain the column list and rows accepted so far, in call order: {:?}",
-                        b, text, seg
+                        b, text, segs[0]
                     ),
                 ));
             }
@@ -1307,13 +1327,20 @@ pub fn predict_insert(log: &Log, op: &Op, sel_width: Option<usize>) -> InsPred {
 /// a column name as the tree under test spells a lone identifier (so that a change to identifier
 /// quoting — another property's business — shows on both sides of the comparison)
 fn col_text(n: &str, b: Backend) -> Option<String> {
-    let mut q = SelectStatement::new();
-    q.column(crate::seams::SimIden {
+    // spelled by the INSERT column-list path of the tree under test itself
+    let mut i = sea_query::InsertStatement::new();
+    i.columns([crate::seams::SimIden {
         name: n.to_string(),
         live: false,
-    });
-    let t = sel_to_string(&q, b).ok()?;
-    t.strip_prefix("SELECT ").map(|s| s.to_string())
+    }]);
+    let t = guarded(|| match b {
+        Backend::Mysql => i.to_string(sea_query::MysqlQueryBuilder),
+        Backend::Pg => i.to_string(sea_query::PostgresQueryBuilder),
+        Backend::Sqlite => i.to_string(sea_query::SqliteQueryBuilder),
+    })
+    .ok()?;
+    let k = t.find(" (")?;
+    t[k + 2..].strip_suffix(')').map(|s| s.to_string())
 }
 
 fn sel_to_string(q: &SelectStatement, b: Backend) -> Result<String, String> {
@@ -1355,22 +1382,15 @@ fn cell_text(e: &ExprSpec, b: Backend) -> Option<String> {
     inner.strip_suffix(')').map(|s| s.to_string())
 }
 
-pub fn expected_insert_segment(m: &InsModel, b: Backend) -> Option<String> {
-    if m.default.is_some() && m.cols.is_empty() && m.source == InsSrc::None {
-        let n = m.default.unwrap() as usize;
-        return Some(match b {
-            Backend::Sqlite => " DEFAULT VALUES".to_string(),
-            Backend::Mysql => format!(" VALUES {}", vec!["()"; n].join(", ")),
-            Backend::Pg => format!(" VALUES {}", vec!["(DEFAULT)"; n].join(", ")),
-        });
-    }
+/// acceptable spellings of "column list + source" for a rectangular model with a source
+pub fn expected_insert_segments(m: &InsModel, b: Backend) -> Option<Vec<String>> {
     let mut cols: Vec<String> = Vec::new();
     for c in &m.cols {
         cols.push(col_text(&c.n, b)?);
     }
-    let mut seg = format!(" ({})", cols.join(", "));
+    let head = format!(" ({})", cols.join(", "));
     match &m.source {
-        InsSrc::None => {}
+        InsSrc::None => None,
         InsSrc::Rows(rows) => {
             let mut rs = Vec::new();
             for r in rows {
@@ -1380,15 +1400,12 @@ pub fn expected_insert_segment(m: &InsModel, b: Backend) -> Option<String> {
                 }
                 rs.push(format!("({})", cells.join(", ")));
             }
-            seg.push_str(" VALUES ");
-            seg.push_str(&rs.join(", "));
+            Some(vec![format!("{} VALUES {}", head, rs.join(", "))])
         }
         InsSrc::Select(l) => {
             let st = guarded(|| replay(l)).ok()?;
             let t = sel_to_string(&st.into_select(), b).ok()?;
-            seg.push(' ');
-            seg.push_str(&t);
+            Some(vec![format!("{} {}", head, t), format!("{} ({})", head, t)])
         }
     }
-    Some(seg)
 }
